@@ -53,19 +53,6 @@ MANIFEST = {
     "design": "§6 C05",
 }
 
-_TMP = None
-_TMP_PID = None
-
-
-def _tmp():
-    global _TMP, _TMP_PID
-    if _TMP is None or _TMP_PID != os.getpid() or not os.path.isdir(_TMP):
-        _TMP = tempfile.mkdtemp(prefix="c05_")
-        _TMP_PID = os.getpid()
-        atexit.register(shutil.rmtree, _TMP, True)
-    return _TMP
-
-
 # field kinds per format (entry-type fields)
 KINDS = {
     "bed": ["str", "int", "int"],
@@ -201,8 +188,9 @@ def make_case(rng, fmt, nops, canonical=None):
 
 
 def cases(tier, rng):
+    G._tmp()    # scratch directory of the run: created in the parent, shared by the forked workers, removed at exit
     big = tier in ("thorough", "widen")
-    per = {"quick": 500, "thorough": 5000, "widen": 1500}[tier]
+    per = {"quick": 400, "thorough": 5000, "widen": 1500}[tier]
     L = 8 if big else 5
     fmts = ["bed", "bed6", "vcf", "sam", "fastq", "fasta2", "bam"]
     # fixed scenario family: cache / overlay interleavings around one concatenate
